@@ -48,6 +48,11 @@ mod c17 {
 }
 
 #[allow(dead_code)]
+mod realtui {
+    include!(concat!(env!("XOOLIVE_RS1090_VERIF_DIR"), "/realtui.rs"));
+}
+
+#[allow(dead_code)]
 mod pipeline {
     include!(concat!(env!("XOOLIVE_RS1090_VERIF_DIR"), "/pipeline.rs"));
 }
